@@ -16,6 +16,7 @@ from tracklib.core.obs_coords import ENUCoords
 from tracklib.core.obs_time import ObsTime
 from tracklib.core.operators import Operator
 from tracklib.core.track import Track
+from tracklib.core.track_collection import TrackCollection
 
 from vt.core import SubCheck, Violation
 
@@ -40,6 +41,13 @@ ASSUMPTIONS = [
     "an index whose usable weight is 0 (or < 1e-9 of the total weight) is undefined: nothing is demanded there, and a "
     "ZeroDivisionError of the whole call is accepted iff such an index exists anywhere in the signal (boundary indices included)",
     "list kernels never filter the boundary (the operator has no switch for them); kernel objects follow setFilterBoundary",
+    "a kernel object obeys the last flag set on ITSELF (False when never set), whatever other kernel objects of the process "
+    "were created or configured before or in between; at the start of a case the class-level default of the flag is put back to "
+    "False (a no-op on the unchanged code, which never writes it), so a case does not depend on the cases run before it",
+    "entry points: Track.operate(Operator.FILTER, in, kernel, out) read at feature out; filter_seq(track, kernel, dims) read on the "
+    "Track it RETURNS (nothing is demanded of the argument object; the unchanged code filters the argument in place and returns "
+    "that same object); Track.smooth(width) / TrackCollection.smooth(width) = Gaussian kernel of that width, default boundary "
+    "flag (boundaries copied), x, y and z, returns None: read on the track(s) the method was called on",
     "DiracKernel: all weight on the centre sample -> identity on non-NaN samples, undefined on NaN samples",
     "tolerance 1e-9 * max|x| over the window + 1e-12; window weights: sum within 1e-12 of 1, symmetric and non-negative within "
     "1e-12 of the largest weight (the outermost sample of Cubic/Spheric at width k+tiny evaluates to +-1e-17)",
@@ -156,10 +164,22 @@ def make_track(sig):
     return tr
 
 
-def make_kernel(spec):
-    """-> (object handed to tracklib, weight vector for the oracle | None for Dirac, boundary flag)"""
+def reset_kernel_state():
+    """every case starts from the state of a fresh interpreter: the boundary flag is an instance attribute that shadows a
+    class-level default False; nothing in the unchanged code writes the class attribute, so this is a no-op there and makes
+    a case independent of the cases that ran before it in the same worker process"""
+    for c in [tk.Kernel] + list(KINDS.values()) + [tk.DiracKernel]:
+        if "_Kernel__filter_boundary" in c.__dict__:
+            if c is tk.Kernel:
+                tk.Kernel._Kernel__filter_boundary = False
+            else:
+                delattr(c, "_Kernel__filter_boundary")
+
+
+def build_kernel(spec):
+    """create and configure one kernel object as the spec says -> (object handed to tracklib, boundary flag it must obey)"""
     if spec["kind"] == "list":
-        return [v for v in spec["w"]], [float(v) for v in spec["w"]], False
+        return [v for v in spec["w"]], False
     if spec["kind"] == "Dirac":
         k = tk.DiracKernel()
     else:
@@ -167,12 +187,30 @@ def make_kernel(spec):
     if spec.get("boundary") is not None:
         k.setFilterBoundary(bool(spec["boundary"]))
     boundary = bool(spec.get("boundary"))
+    check_flag(k, boundary, "right after setFilterBoundary(%r)" % (spec.get("boundary"),) if spec.get("boundary") is not None
+               else "of a new kernel")
+    return k, boundary
+
+
+def check_flag(k, boundary, when):
     if k.filterBoundary() != boundary:
-        raise Violation("boundary-flag-lost", "setFilterBoundary(%r) but filterBoundary() = %r" % (spec.get("boundary"), k.filterBoundary()))
+        raise Violation("boundary-flag-lost", "filterBoundary() %s is %r, the flag of this kernel object is %r" % (
+            when, k.filterBoundary(), boundary))
+
+
+def kernel_weights(k, spec):
+    """weight vector for the oracle (None for Dirac); checks the sliding window of a kernel object on the way"""
+    if spec["kind"] == "list":
+        return [float(v) for v in spec["w"]]
     if spec["kind"] == "Dirac":
-        return k, None, boundary
-    w = check_window(k, spec)
-    return k, w, boundary
+        return None
+    return check_window(k, spec)
+
+
+def make_kernel(spec):
+    """-> (object handed to tracklib, weight vector for the oracle | None for Dirac, boundary flag)"""
+    k, boundary = build_kernel(spec)
+    return k, kernel_weights(k, spec), boundary
 
 
 def check_window(k, spec):
@@ -209,6 +247,24 @@ def run_filter(case, sig, kobj):
         tr.operate(Operator.FILTER, d, kobj, "b")
         res.append(("operate(FILTER,'%s',k,'b')" % d, sig[d], tr.getAnalyticalFeature("b")))
         untouched.append(("a", sig["a"], tr.getAnalyticalFeature("a")))
+    elif via in ("smooth", "smooth_coll"):
+        # Track.smooth(width) / TrackCollection.smooth(width): Gaussian kernel of that width on x, y, z; returns None,
+        # the smoothed coordinates are read on the track itself
+        width = case["kernel"]["width"]
+        if case.get("int_width") and width == int(width):
+            width = int(width)
+        if via == "smooth":
+            ret = tr.smooth(width)
+            judged = [("", tr, sig)]
+        else:
+            sig2 = {"x": sig["z"], "y": sig["x"], "z": sig["y"], "a": sig["a"]}
+            tr2 = make_track(sig2)
+            ret = TrackCollection([tr, tr2]).smooth(width)
+            judged = [("track 0 ", tr, sig), ("track 1 ", tr2, sig2)]
+        for tag, t, sg in judged:
+            for d, get in (("x", t.getX), ("y", t.getY), ("z", t.getZ)):
+                res.append(("%s%s after %s(%r)" % (tag, d, via, width), sg[d], get()))
+            untouched.append(("a", sg["a"], t.getAnalyticalFeature("a")))
     else:
         dims = list(case["dims"])
         ret = filter_seq(tr, kobj, dims)
@@ -220,38 +276,38 @@ def run_filter(case, sig, kobj):
                 res.append(("filter_seq dim '%s'" % d, sig[d], getters[d]()))
             else:
                 untouched.append((d, sig[d], getters[d]()))
-    if via != "seq":
+    if via in ("feature", "coord"):
         for d, get in (("x", tr.getX), ("y", tr.getY), ("z", tr.getZ)):
             untouched.append((d, sig[d], get()))
     return res, untouched
 
 
-def body_filter(case):
-    x = case["x"]
-    spec = case["kernel"]
-    via = case["via"]
-    if via not in ("feature", "coord", "seq") or not x:
-        return {"undef": True}
+VIAS = ("feature", "coord", "seq", "smooth", "smooth_coll")
+
+
+def spec_in_domain(spec):
     if spec["kind"] == "list":
         w0 = spec["w"]
-        if len(w0) % 2 != 1 or any(isn(v) or v < 0 for v in w0) or not any(v > 0 for v in w0):
-            return {"undef": True}
-    elif spec["kind"] != "Dirac" and not (spec["width"] >= 1):
-        return {"undef": True}
-    kobj, w, boundary = make_kernel(spec)              # checks the sliding window of a kernel object on the way
+        return len(w0) % 2 == 1 and not any(isn(v) or v < 0 for v in w0) and any(v > 0 for v in w0)
+    return spec["kind"] == "Dirac" or spec["width"] >= 1
+
+
+def judged_use(use, spec, kobj, w, boundary):
+    """one filter call through tracklib, judged completely; use = {"x", "via", "dims"[, "int_width"]}.
+    -> None when the call is outside the domain, else statistics"""
+    x, via = use["x"], use["via"]
     wz = [0.0, 1.0, 0.0] if w is None else w           # Dirac: all weight on the centre sample
     if len(x) < len(wz):
-        return {"undef": True}                         # signal shorter than the window: outside the quantifier
+        return None                                    # signal shorter than the window: outside the quantifier
     sig = derived(x)
-    dims = ["a"] if via == "feature" else list(case["dims"])
+    dims = ["a"] if via == "feature" else (["x", "y", "z"] if via.startswith("smooth") else list(use["dims"]))
     try:
-        res, untouched = run_filter(case, sig, kobj)
+        res, untouched = run_filter(dict(use, kernel=spec), sig, kobj)
     except ZeroDivisionError:
         # accepted iff some index (anywhere, boundary included) has no usable weight; otherwise it is a crash
         if any(ref_filter(sig[d], wz, True)[2] for d in dims):
-            return {"undef": True, "cls": ["undef-zero-usable-weight(ZeroDivisionError)"]}
+            return {"zerodiv": True}
         raise
-    cls = ["via-" + via, "kernel-" + spec["kind"]]
     changed = und = 0
     const = False
     for what, xin, got in res:
@@ -265,6 +321,44 @@ def body_filter(case):
     for d, before, after in untouched:
         if len(before) != len(after) or any(not (p == q or (isn(p) and isn(q))) for p, q in zip(before, after)):
             raise Violation("other-signal-modified", "signal '%s' was not to be filtered but changed: %r -> %r" % (d, before, after))
+    return {"changed": changed, "undef": und, "const": const}
+
+
+def body_filter(case):
+    reset_kernel_state()
+    x = case["x"]
+    spec = case["kernel"]
+    via = case["via"]
+    if via not in VIAS or not x:
+        return {"undef": True}
+    others = list(case.get("before") or []) + list(case.get("between") or [])
+    if not all(spec_in_domain(sp) and sp["kind"] != "list" for sp in others) or not spec_in_domain(spec):
+        return {"undef": True}
+    if via.startswith("smooth") and spec["kind"] != "Gaussian":
+        return {"undef": True}
+    # other kernel objects of the process, created and configured before the judged kernel exists ...
+    for sp in case.get("before") or []:
+        build_kernel(sp)
+    if via.startswith("smooth"):
+        # the entry point creates its own GaussianKernel(width) and never configures it: boundaries are copied;
+        # the weights come from an own (checked) kernel object of the same width
+        kobj, boundary = None, False
+        w = check_window(tk.GaussianKernel(spec["width"]), spec)
+    else:
+        kobj, w, boundary = make_kernel(spec)          # checks the sliding window of a kernel object on the way
+    # ... and between its configuration and its use
+    for sp in case.get("between") or []:
+        build_kernel(sp)
+    if kobj is not None and not isinstance(kobj, list):
+        check_flag(kobj, boundary, "after other kernel objects were configured")
+    r = judged_use(case, spec, kobj, w, boundary)
+    if r is None:
+        return {"undef": True}
+    if r.get("zerodiv"):
+        return {"undef": True, "cls": ["undef-zero-usable-weight(ZeroDivisionError)"]}
+    wz = [0.0, 1.0, 0.0] if w is None else w
+    cls = ["via-" + via, "kernel-" + spec["kind"]]
+    changed, und, const = r["changed"], r["undef"], r["const"]
     has_nan = any(isn(v) for v in x)
     if w is not None:
         cls.append("N=%d" % len(w) if len(w) <= 9 else "N>9")
@@ -275,6 +369,10 @@ def body_filter(case):
         if len(x) == len(w):
             cls.append("len==window")
     cls.append("boundary-filtered" if boundary else "boundary-copied")
+    if others:
+        cls.append("other-kernels-configured")
+        if any(bool(sp.get("boundary")) != boundary for sp in others):
+            cls.append("other-kernel-with-opposite-flag")
     if has_nan:
         cls.append("nan")
         if isn(x[0]) or isn(x[-1]):
@@ -285,6 +383,78 @@ def body_filter(case):
         cls.append("undef-index-skipped")
     cls.append("changes-signal" if changed else "identity-on-this-signal")
     return {"nt": changed > 0 and (has_nan or boundary or len(wz) >= 3), "cls": cls}
+
+
+# --- several kernel objects and several judged calls in one case ---------------------------------
+def body_history(case):
+    """case = {"kernels": [spec...], "lazy": bool, "uses": [{"k", "x", "via", "dims", "set": [k2, flag] | None}]}.
+    All kernel objects are created and configured first (lazy = False) or each right before its first use (lazy = True);
+    a use may be preceded by a setFilterBoundary call on any of the kernels.  Model: each kernel object obeys the last flag
+    set on ITSELF (False when never set).  Every use gets the full oracle."""
+    reset_kernel_state()
+    specs = case["kernels"]
+    if not specs or not all(spec_in_domain(sp) for sp in specs):
+        return {"undef": True}
+    objs, flags = {}, {}
+
+    def make(j):
+        if j not in objs:
+            objs[j], flags[j] = build_kernel(specs[j])
+
+    if not case.get("lazy"):
+        for j in range(len(specs)):
+            make(j)
+    cls = set()
+    judged = changed = 0
+    for n, use in enumerate(case["uses"]):
+        j = use["k"]
+        if not (0 <= j < len(specs)) or use["via"] not in VIAS:
+            return {"undef": True}
+        spec = specs[j]
+        if use.get("set") is not None:
+            j2, flag = use["set"]
+            if not (0 <= j2 < len(specs)) or specs[j2]["kind"] == "list":
+                return {"undef": True}
+            make(j2)
+            objs[j2].setFilterBoundary(bool(flag))
+            flags[j2] = bool(flag)
+            check_flag(objs[j2], flags[j2], "right after setFilterBoundary(%r)" % (flag,))
+            cls.add("reconfigured-other-kernel" if j2 != j else "reconfigured-used-kernel")
+        make(j)
+        try:
+            if use["via"].startswith("smooth"):
+                if spec["kind"] != "Gaussian":
+                    return {"undef": True}
+                kobj, boundary = None, False
+                w = check_window(tk.GaussianKernel(spec["width"]), spec)
+            else:
+                kobj, boundary = objs[j], flags[j]
+                if not isinstance(kobj, list):
+                    check_flag(kobj, boundary, "before use no. %d" % n)
+                w = kernel_weights(kobj, spec)
+            r = judged_use(use, spec, kobj, w, boundary)
+        except Violation as v:
+            raise Violation(v.key, "use no. %d (kernel %d of %r, flags set so far %r): %s" % (n, j, specs, flags, v.msg))
+        if r is None:
+            return {"undef": True}
+        if r.get("zerodiv"):
+            cls.add("undef-zero-usable-weight(ZeroDivisionError)")
+            continue
+        judged += 1
+        changed += 1 if r["changed"] else 0
+        cls.add("via-" + use["via"])
+        cls.add("use-boundary-filtered" if boundary else "use-boundary-copied")
+        if any(f != boundary for k2, f in flags.items() if k2 != j and specs[k2]["kind"] != "list"):
+            cls.add("use-while-other-kernel-has-opposite-flag")
+        if n > 0 and any(u["k"] == j for u in case["uses"][:n]):
+            cls.add("kernel-object-reused")
+    if not judged:
+        return {"undef": True, "cls": sorted(cls)}
+    cls.add("judged-uses-%d" % judged)
+    cls.add("kernels-%d" % len(specs))
+    cls.add("lazy-creation" if case.get("lazy") else "all-created-first")
+    distinct = len(set(u["k"] for u in case["uses"]))
+    return {"nt": changed > 0 and distinct >= 2, "cls": sorted(cls)}
 
 
 # --- generators -----------------------------------------------------------------------------------
@@ -371,17 +541,73 @@ def _win_len(kind, width):
     return 2 * int(SUPPORT[kind] * width) + 1
 
 
+def _other_kernel():
+    """another kernel object of the process: any class, a few widths, flag set True / False / left at its default"""
+    return st.tuples(st.sampled_from(sorted(KINDS) + ["Dirac"]), st.sampled_from([1.0, 1.5, 2.0, 3.0]),
+                     st.sampled_from([True, False, None, True])).map(
+        lambda t: {"kind": "Dirac", "boundary": t[2]} if t[0] == "Dirac" else {"kind": t[0], "width": t[1], "boundary": t[2]})
+
+
+def _others():
+    """(before, between): kernels configured before the judged kernel is created / between its configuration and its use"""
+    none = st.just([])
+    one = _other_kernel().map(lambda k: [k])
+    return st.one_of(st.tuples(none, none), st.tuples(one, none), st.tuples(none, one), st.tuples(one, one),
+                     st.tuples(none, st.lists(_other_kernel(), min_size=2, max_size=2)))
+
+
 def strat_kernel():
     def with_signal(t):
-        kind, width, bnd, extra, (via, dims) = t
+        kind, width, bnd, extra, (via, dims), (before, between), intw = t
+        more = {"before": before, "between": between}
         if kind == "Dirac":
             spec, N = {"kind": "Dirac", "boundary": bnd}, 3
+        elif kind.startswith("Gaussian-"):
+            # Track.smooth(width) / TrackCollection.smooth(width): the kernel is created by the entry point
+            via, dims = {"Gaussian-smooth": "smooth", "Gaussian-smooth-coll": "smooth_coll"}[kind], ["x", "y", "z"]
+            spec, N = {"kind": "Gaussian", "width": width, "boundary": None}, _win_len("Gaussian", width)
+            more["int_width"] = intw
         else:
             spec, N = {"kind": kind, "width": width, "boundary": bnd}, _win_len(kind, width)
-        return _signal(N + extra, N).map(lambda x: {"kernel": spec, "x": x, "via": via, "dims": dims})
-    kinds = sorted(KINDS) + ["Dirac"]
+        return _signal(N + extra, N).map(lambda x: dict({"kernel": spec, "x": x, "via": via, "dims": dims}, **more))
+    kinds = sorted(KINDS) + ["Dirac", "Gaussian-smooth", "Gaussian-smooth", "Gaussian-smooth-coll"]
     return st.tuples(st.sampled_from(kinds), _width(), st.sampled_from([True, False, None]),
-                     st.sampled_from([0, 1, 2, 3, 4, 5, 6, 8, 10, 12]), _route()).flatmap(with_signal)
+                     st.sampled_from([0, 1, 2, 3, 4, 5, 6, 8, 10, 12]), _route(), _others(), st.booleans()).flatmap(with_signal)
+
+
+def strat_history():
+    kinds = sorted(KINDS) + ["Dirac", "list", "Gaussian"]
+    kspec = st.tuples(st.sampled_from(kinds), st.sampled_from([1.0, 1.0, 1.5, 2.0, 1.25, 3.0]),
+                      st.sampled_from([True, False, None]), _weights())
+    use = st.tuples(st.integers(0, 2), st.sampled_from([0, 1, 2, 4, 7]), _route(),
+                    st.sampled_from([None, None, True, False]), st.integers(0, 2), st.sampled_from([0, 0, 0, 1, 2]))
+
+    def build(t):
+        kspecs, raw_uses, lazy = t
+        specs, Ns = [], []
+        for kind, width, bnd, w in kspecs:
+            if kind == "list":
+                specs.append({"kind": "list", "w": w})
+                Ns.append(len(w))
+            elif kind == "Dirac":
+                specs.append({"kind": "Dirac", "boundary": bnd})
+                Ns.append(3)
+            else:
+                specs.append({"kind": kind, "width": width, "boundary": bnd})
+                Ns.append(_win_len(kind, width))
+        uses, sigs = [], []
+        for n, (k, extra, (via, dims), setflag, k2, sm) in enumerate(raw_uses):
+            k = k % len(specs) if n != 1 else (uses[0]["k"] + 1 + k % (len(specs) - 1)) % len(specs)   # first two uses: two different kernels
+            k2 = k2 % len(specs)
+            if sm and specs[k]["kind"] == "Gaussian":
+                via, dims = ("smooth", "smooth_coll")[sm - 1], ["x", "y", "z"]
+            u = {"k": k, "via": via, "dims": dims,
+                 "set": [k2, setflag] if setflag is not None and specs[k2]["kind"] != "list" else None}
+            uses.append(u)
+            sigs.append(_signal(Ns[k] + extra, Ns[k]))
+        return st.tuples(*sigs).map(lambda xs: {"kernels": specs, "lazy": lazy,
+                                                "uses": [dict(u, x=x) for u, x in zip(uses, xs)]})
+    return st.tuples(st.lists(kspec, min_size=2, max_size=3), st.lists(use, min_size=2, max_size=4), st.booleans()).flatmap(build)
 
 
 # --- sliding windows on their own -----------------------------------------------------------------
@@ -400,6 +626,7 @@ def strat_windows():
 
 
 def body_window(case):
+    reset_kernel_state()
     if case["kind"] == "Dirac":
         k = tk.DiracKernel()
     else:
@@ -420,9 +647,15 @@ RULE = ("list_kernels: odd weight lists of length 1..7 (asymmetric, symmetric, i
         "isolated NaN (>= N apart, also on the first/last fix); kernel_objects: the 7 built-in kernels + Dirac, width in [1,4] "
         "(quarter lattice, integers, arbitrary floats), setFilterBoundary True / False / default; every case goes through "
         "operate(FILTER) on a feature, operate(FILTER) on x|y|z, or filter_seq on a subset of x, y, z and a feature; "
+        "or (Gaussian) Track.smooth / TrackCollection.smooth with the width as float or int; 0..2 other kernel objects (any class, "
+        "widths 1..3, flag True / False / default) are created and configured before the judged kernel exists and / or between its "
+        "configuration and its use; kernel_histories: 2..3 kernel objects (built-in, Dirac or a weight list object that is reused), "
+        "all created first or each right before its first use, 2..4 judged filter calls (the first two with two different kernels), "
+        "a call optionally preceded by setFilterBoundary on any of the kernels; every call gets the full oracle with the flag last "
+        "set on the kernel it uses; "
         "windows: toSlidingWindow of every kernel at widths 1..4 step 1/16 plus 5 larger widths (enumerated) and random widths up to 40. "
         "Non-trivial: the filter changes at least one value of the signal and the case involves NaN, a filtered boundary or a window "
-        "of length >= 3; a window with >= 2 positive weights.  Distinct = hash of the case.")
+        "of length >= 3 (histories: some call changes its signal and two different kernels are used); a window with >= 2 positive weights.  Distinct = hash of the case.")
 
 # coverage-guided stage of the thorough tier (vt/fuzz.py): sub-check -> libFuzzer executions
 FUZZ = {'list_kernels': 10000}
@@ -431,4 +664,6 @@ SUBCHECKS = [
     SubCheck("windows", body_window, enum=enum_windows, strategy=strat_windows, quick=400, thorough=8000, qshards=2, tshards=4),
     SubCheck("list_kernels", body_filter, strategy=strat_list, quick=8000, thorough=200000, qshards=7),
     SubCheck("kernel_objects", body_filter, strategy=strat_kernel, quick=8000, thorough=200000, qshards=7),
+    SubCheck("kernel_histories", body_history, strategy=strat_history, quick=3000, thorough=60000, qshards=4,
+             rule="2..3 kernel objects and 2..4 judged filter calls in one case, flags reconfigured in between"),
 ]
